@@ -2,6 +2,7 @@
 # run_all.sh [quick|thorough] : run every check in sequence on /repo's current tree; prints one summary line per check.
 cd "$(dirname "$0")" || exit 2
 TIER="${1:-quick}"
+mkdir -p run bin evidence
 rc_all=0
 for P in C01 C02 C03 C04 C05 C06 C07 C08 C09 C10 C11 C12 C13 C14 C15 C16 C17 C18 C19 C20; do
   ./check.sh $P $TIER > run/last-$P.out 2>&1
